@@ -134,8 +134,9 @@ Definition Pint (q : nat) (x : R) : R := 1 - exp (- x) * esum x q.
 Lemma Pint_is_integral q x : Pint q x = / INR (fact q) * RInt (fun t => t ^ q * exp (- t)) 0 x.
 Proof. unfold Pint, esum. change (sum_f_R0 (eterm x) q) with (sum_f_R0 (fun k => x ^ k / INR (fact k)) q). rewrite q_integer_closed_form. ring. Qed.
 
-Theorem gser_integer_shape q x v : 0 < x -> gammap_ser ROps x (INR (S q)) = Ok v ->
+Theorem gser_integer_shape_first q x v : 0 < x -> gammap_ser ROps x (INR (S q)) = Ok v ->
   exists k gln, gammaln ROps (INR (S q)) = Ok gln /\ (Z.of_nat k <= 100000)%Z /\
+    (forall j, (j < k)%nat -> Rabs (sum_f_R0 (gser_term x (INR (S q))) j) * dbl_eps ROps < Rabs (gser_term x (INR (S q)) j)) /\
     let Ptr := exp (- x) * (esum x (S q + k) - esum x q) in
     v = Ptr * (INR (fact q) / exp gln) /\
     0 <= Ptr <= Pint q x /\ Pint q x <= 1 /\
@@ -143,8 +144,8 @@ Theorem gser_integer_shape q x v : 0 < x -> gammap_ser ROps x (INR (S q)) = Ok v
     (x < INR (S q) + 1 -> Pint q x - Ptr <= Ptr * dbl_eps ROps * (INR (S q + k) + 2)).
 Proof.
   intros Hx Hv. assert (Ha : 0 < INR (S q)) by (apply lt_0_INR; lia).
-  destruct (gser_partial_sums x (INR (S q)) v Ha Hv) as (k & gln & Hg & Hk & Ev & Hstop & _).
-  exists k, gln. split; [exact Hg|]. split; [exact Hk|]. cbv zeta.
+  destruct (gser_partial_sums x (INR (S q)) v Ha Hv) as (k & gln & Hg & Hk & Ev & Hstop & Hcont).
+  exists k, gln. split; [exact Hg|]. split; [exact Hk|]. split; [exact Hcont|]. clear Hcont. cbv zeta.
   set (N := (S q + k)%nat) in *.
   assert (Hx0 : 0 <= x) by lra.
   assert (Hex : 0 < exp (- x)) by apply exp_pos.
@@ -203,6 +204,18 @@ Proof.
     apply Rmult_le_compat_l; [lra|].
     apply Rle_trans with (eterm x N * (INR N + 2)); [exact Hr2|].
     apply Rmult_le_compat_r; [lra|exact Hst].
+Qed.
+
+Theorem gser_integer_shape q x v : 0 < x -> gammap_ser ROps x (INR (S q)) = Ok v ->
+  exists k gln, gammaln ROps (INR (S q)) = Ok gln /\ (Z.of_nat k <= 100000)%Z /\
+    let Ptr := exp (- x) * (esum x (S q + k) - esum x q) in
+    v = Ptr * (INR (fact q) / exp gln) /\
+    0 <= Ptr <= Pint q x /\ Pint q x <= 1 /\
+    Pint q x - Ptr = exp (- x) * (exp x - esum x (S q + k)) /\
+    (x < INR (S q) + 1 -> Pint q x - Ptr <= Ptr * dbl_eps ROps * (INR (S q + k) + 2)).
+Proof.
+  intros Hx Hv. destruct (gser_integer_shape_first q x v Hx Hv) as (k & gln & Hg & Hk & _ & H). exists k, gln.
+  split; [exact Hg|]. split; [exact Hk|]. exact H.
 Qed.
 
 Lemma esum_split q x k : esum x (S q + k) - esum x q = sum_f_R0 (fun j => x ^ (S q + j) / INR (fact (S q + j))) k.
